@@ -36,6 +36,8 @@ inductive SOp
 structure Sock where
   isOpen : Bool := true
   pending : Nat := 0
+  kind : Nat := 0        -- 0 socket of a socketpair, 1 read end of a pipe, 2 write end of a pipe
+  peer : Nat := 0        -- device index of the other end (pipes)
   deriving Inhabited
 
 structure TObj where
@@ -59,6 +61,10 @@ structure D where
   backend : String := "poll"  -- epoll: reactor::select is a system call (EBADF on a closed descriptor); select: select() fails with EBADF while a closed descriptor is registered
   stale : Nat := 0            -- number of setter functors that ran after their descriptor had been closed
   staleTc : Nat := 0          -- deadline_timer::cancel() with an event id that has already fired, while other timers are armed
+  due : List Nat := []        -- spec-level expectation: handlers whose awaited condition the kernel reported while armed
+  mustCancel : List Nat := [] -- spec-level expectation: waits cancelled by their owner before their deadline was reached
+  outstanding : List (Option Nat) := []  -- per timer object: the wait that has not been invoked yet
+  tainted : List Bool := []              -- per timer object: async_wait was issued while another wait was outstanding
 
 def codeOf : String → Option Code
   | "ok" => some .ok | "canceled" => some .canceled | "selfail" => some .selectFailed
@@ -108,10 +114,18 @@ def doOp (d : D) : SOp → D
     -- deadline_timer::expires_at(dl); async_wait(h): event_id_ = set_timer_event(deadline_, waiter{h})
     let slot := d.nextSlot
     let d' := { d with st := opStep d.st (.setTimer dl slot), nextSlot := slot + 1,
-                       tobjs := d.tobjs.set k { deadline := dl, eventId := some slot } }
+                       tobjs := d.tobjs.set k { deadline := dl, eventId := some slot },
+                       tainted := if (d.outstanding.getD k none).isSome then d.tainted.set k true else d.tainted,
+                       outstanding := d.outstanding.set k (some d.st.next) }
     noteIssue d' d.st.next p (some k)
   | .tc k =>
     -- deadline_timer::cancel(): only if event_id_ != -1
+    -- API-level expectation, independent of deadline_timer's bookkeeping: the only outstanding wait of this
+    -- object, still armed (deadline not yet reached by run_one), must complete with `canceled`
+    let d := match d.outstanding.getD k none with
+      | some h => if !(d.tainted.getD k false) && d.st.timers.any (fun t => t.tok.id == h)
+                  then { d with mustCancel := d.mustCancel ++ [h] } else d
+      | none => d
     match (d.tobjs.getD k {}).eventId with
     | some slot => { d with staleTc := d.staleTc + (if !slotBusy d.st.timers slot && !d.st.timers.isEmpty then 1 else 0),
                             st := opStep d.st (.cancelTimer slot),
@@ -122,10 +136,17 @@ def doOp (d : D) : SOp → D
   | .cl f =>
     -- basic_io_device::close(): cancel(), then close the descriptor, fd_ = invalid_socket
     match sockFd d (some f) with
-    | some fd => { d with st := opStep d.st (.cancelIo (some fd)), socks := d.socks.set f { isOpen := false, pending := 0 } }
+    | some fd => { d with st := opStep d.st (.cancelIo (some fd)),
+                          socks := d.socks.set f { (d.socks.getD f {}) with isOpen := false, pending := 0 } }
     | none => d
-  | .pw f => { d with socks := d.socks.set f { (d.socks.getD f {}) with pending := (d.socks.getD f {}).pending + 1 } }
-  | .dr f => if (d.socks.getD f {}).isOpen then { d with socks := d.socks.set f { isOpen := true, pending := 0 } } else d
+  | .pw f =>
+    let sk := d.socks.getD f {}
+    -- socket: the peer (never closed) writes a byte; pipe read end: a byte is written into the write end if it is
+    -- still open; on a write end the op means nothing
+    if sk.kind == 0 || (sk.kind == 1 && (d.socks.getD sk.peer {}).isOpen) then
+      { d with socks := d.socks.set f { sk with pending := sk.pending + 1 } }
+    else d
+  | .dr f => if (d.socks.getD f {}).isOpen then { d with socks := d.socks.set f { (d.socks.getD f {}) with pending := 0 } } else d
   | .stop => { d with st := opStep d.st .stop }
   | _ => d
 
@@ -150,21 +171,54 @@ def settle : Nat → D → D
         let d := { d with execAt := d.execAt ++ [d.now] }
         -- deadline_timer::waiter::operator(): self->event_id_ = -1, then the user's handler
         let d := match d.htimer.getD t.id none with
-          | some k => { d with tobjs := d.tobjs.set k { (d.tobjs.getD k {}) with eventId := none } }
+          | some k => { d with tobjs := d.tobjs.set k { (d.tobjs.getD k {}) with eventId := none },
+                               outstanding := if d.outstanding.getD k none == some t.id then d.outstanding.set k none else d.outstanding }
           | none => d
         let d := (d.progs.getD (d.hprog.getD t.id 0) []).foldl doOp d
         settle fuel d
       | _ => settle fuel d
     | _ => d
 
+def backendOf (d : D) : Backend :=
+  if d.backend == "epoll" then .epoll else if d.backend == "select" then .select else .poll
+
+/-- Environment: what the Linux kernel reports for a registered descriptor (measured: pipe read end whose writer
+closed: POLLHUP alone, or POLLIN|POLLHUP with buffered data; write end whose reader closed: POLLOUT|POLLERR;
+select(): EOF = readable, EPIPE = writable, never exceptional).  poll/epoll bits IN=1 OUT=4 ERR=8 HUP=16,
+select bits r=1 w=2. -/
+def kernelReport (d : D) (fd : Nat) : Nat :=
+  let io := ioGet d.st.map fd
+  let sk := d.socks.getD fd {}
+  let peerOpen := (d.socks.getD sk.peer {}).isOpen
+  if !(io.curIn || io.curOut) then 0 else
+  match backendOf d with
+  | .select =>
+    let r := io.curIn && (sk.pending > 0 || (sk.kind == 1 && !peerOpen))
+    let w := io.curOut && (sk.kind == 0 || sk.kind == 2)
+    (if r then 1 else 0) ||| (if w then 2 else 0)
+  | _ =>
+    let i := if io.curIn && sk.pending > 0 then 1 else 0
+    let o := if io.curOut && (sk.kind == 0 || sk.kind == 2) then 4 else 0
+    let h := if sk.kind == 1 && !peerOpen then 16 else 0
+    let e := if sk.kind == 2 && !peerOpen then 8 else 0
+    i ||| o ||| h ||| e
+
 def readyEvents (d : D) (f : Option Nat) : List Event :=
   match sockFd d f with
   | none => []
   | some fd =>
+    let k := kernelReport d fd
+    if k == 0 then [] else [kernelToEvent (backendOf d) fd k]
+
+/-- spec-level expectation for this step: armed handlers whose awaited condition is in the kernel's report -/
+def dueNow (d : D) (f : Option Nat) : List Nat :=
+  match sockFd d f with
+  | none => []
+  | some fd =>
+    let k := kernelReport d fd
     let io := ioGet d.st.map fd
-    let rd := io.curIn && (d.socks.getD fd {}).pending > 0
-    let wr := io.curOut
-    if rd || wr then [{ fd := fd, rd := rd, wr := wr, err := false }] else []
+    (if k &&& readDone (backendOf d) ≠ 0 then io.rd.toList.map (·.id) else [])
+      ++ (if k &&& writeDone (backendOf d) ≠ 0 then io.wr.toList.map (·.id) else [])
 
 /-- select(): a registered descriptor that has been closed makes the call fail with EBADF -/
 def selectFails (d : D) : Bool :=
@@ -179,7 +233,9 @@ def topOp (d : D) : SOp → D
     else settle 100000 { d with started := true }
   | .step f =>
     if d.started && d.st.phase == .polling then
-      settle 100000 { d with st := loopStep d.st { now := d.now, events := readyEvents d f, pollErr := selectFails d } }
+      let perr := selectFails d
+      settle 100000 { d with due := d.due ++ (if perr then [] else dueNow d f),
+                             st := loopStep d.st { now := d.now, events := readyEvents d f, pollErr := perr } }
     else d
   | .reset =>
     if d.st.phase == .stopped || d.st.phase == .failed || !d.started then
@@ -218,22 +274,28 @@ def render (d : D) : String :=
     | some t => s!"{i}:{kindStr t.kind}"
     | none => s!"{i}:?"
   let ph := if !d.started then "notrunning" else phaseStr d.st.phase
-  s!"log {" ".intercalate logs} | alive {" ".intercalate ((sortNat (aliveToks d.st)).map toString)} | kinds {" ".intercalate kinds} | phase {ph} | lost {d.st.lost.length} | stale {d.stale + d.staleTc}"
+  s!"log {" ".intercalate logs} | alive {" ".intercalate ((sortNat (aliveToks d.st)).map toString)} | kinds {" ".intercalate kinds} | phase {ph} | lost {d.st.lost.length} | stale {d.stale + d.staleTc} | due {" ".intercalate (d.due.map toString)} | mc {" ".intercalate (d.mustCancel.map toString)}"
 
 def runLoopCase (backend : String) (ws : List String) : String :=
   match ws with
-  | ns :: nt :: rest =>
-    match ns.toNat?, nt.toNat? with
-    | some ns, some nt =>
+  | nsp :: nt :: rest =>
+    let (nsS, npS) := match nsp.splitOn "+" with
+      | [a, b] => (a, b)
+      | _ => (nsp, "0")
+    match nsS.toNat?, nt.toNat?, npS.toNat? with
+    | some ns, some nt, some np =>
       let progWords := rest.takeWhile (· ≠ "S")
       let script := (rest.dropWhile (· ≠ "S")).drop 1
       let progs := progWords.map fun w =>
         match w.splitOn "=" with
         | [_, body] => if body == "-" then [] else (body.splitOn ",").map parseSOp
         | _ => [SOp.bad]
-      let d : D := { backend := backend, progs := progs, socks := List.replicate ns {}, tobjs := List.replicate nt {} }
+      let pipes : List Sock := (List.range np).flatMap fun j =>
+        [{ kind := 1, peer := ns + 2 * j + 1 }, { kind := 2, peer := ns + 2 * j }]
+      let d : D := { backend := backend, progs := progs, socks := List.replicate ns {} ++ pipes, tobjs := List.replicate nt {},
+                     outstanding := List.replicate nt none, tainted := List.replicate nt false }
       render ((script.map parseSOp).foldl topOp d)
-    | _, _ => "bad-op"
+    | _, _, _ => "bad-op"
   | _ => "bad-op"
 
 /-! ### thread pool -/
@@ -297,13 +359,14 @@ def staleTimerCase : String :=
 /-! ### judges -/
 
 def parseObs (w : String) : Option Spec.Obs :=
-  -- id:kind:dl:calls:code:at:onloop:alive
+  -- id:kind:dl:calls:code:at:onloop:alive:due:mustCancel
   match w.splitOn ":" with
-  | [_, k, dl, calls, code, at_, onl, alive] =>
+  | [_, k, dl, calls, code, at_, onl, alive, due, mc] =>
     match dl.toNat?, calls.toNat?, code.toNat?, at_.toNat? with
     | some dl, some calls, some code, some at_ =>
       let kind := if k == "t" then Spec.HKind.timer dl else if k == "i" then .io else .plain
-      some { kind := kind, calls := calls, code := code, clock := at_, onLoop := onl == "1", alive := alive == "1" }
+      some { kind := kind, calls := calls, code := code, clock := at_, onLoop := onl == "1", alive := alive == "1",
+             due := due == "1", mustCancel := mc == "1" }
     | _, _, _, _ => none
   | _ => none
 
